@@ -12,6 +12,7 @@ mod p02;
 mod p03;
 mod p05;
 mod p07;
+mod p11;
 mod p12;
 mod p16;
 mod refimpl;
@@ -37,6 +38,7 @@ macro_rules! dispatch {
             "C03" => $f::<p03::C03>($($arg),*),
             "C05" => $f::<p05::C05>($($arg),*),
             "C07" => $f::<p07::C07>($($arg),*),
+            "C11" => $f::<p11::C11>($($arg),*),
             "C12" => $f::<p12::C12>($($arg),*),
             "C16" => $f::<p16::C16>($($arg),*),
             other => {
